@@ -10,6 +10,11 @@ package ledger
 //
 // Op grammar:   ledger <box name hex> <box value hex>
 //   → round=<n> root=<hex> totals=<hex> label=<label> boxes=<keyhex>:<valuehex>[,…]
+//   appstate <programLen> <owner hex> <numByteSlice> <updateRound>
+//   → size=<encoded resource bytes> root=<hex> label=<label> owner=<owner as read back from the restored ledger>
+// appstate: a one-account state holding ONE application (approval program of programLen bytes, global state
+// {"counter":7,"owner":<owner>}) is fed as a catchpoint chunk through the real catchup accessor
+// (ProcessStagingBalances, BuildMerkleTrie, GetVerifyData) — application rows of ~1 KB / ~4 KB.
 // Ledgers of ops with the same |name|+|value| have the same history length, fees, minimum balances and app
 // account counters (TotalBoxes, TotalBoxBytes); they differ in the box only.
 import (
@@ -23,14 +28,18 @@ import (
 	"testing"
 	"time"
 
+	"github.com/algorand/msgp/msgp"
 	"github.com/stretchr/testify/require"
 
 	"github.com/algorand/go-algorand/config"
 	"github.com/algorand/go-algorand/crypto"
 	"github.com/algorand/go-algorand/data/basics"
+	"github.com/algorand/go-algorand/data/bookkeeping"
 	"github.com/algorand/go-algorand/data/transactions"
 	"github.com/algorand/go-algorand/data/txntest"
+	"github.com/algorand/go-algorand/ledger/encoded"
 	"github.com/algorand/go-algorand/ledger/ledgercore"
+	"github.com/algorand/go-algorand/ledger/store/trackerdb"
 	ledgertesting "github.com/algorand/go-algorand/ledger/testing"
 	"github.com/algorand/go-algorand/logging"
 	"github.com/algorand/go-algorand/protocol"
@@ -132,6 +141,140 @@ func verifC15LedgerExec(t *testing.T, op string) string {
 		verifC15LHex(protocol.EncodeReflect(&totals)), label, strings.Join(boxes, ","))
 }
 
+const (
+	verifC15AppRound = basics.Round(1000)
+	verifC15AppIdx   = basics.CreatableIndex(5001)
+)
+
+func verifC15AppResource(programLen int, owner []byte, nbs, ur uint64) trackerdb.ResourcesData {
+	p := basics.AppParams{ClearStateProgram: []byte{0x0a, 0x81, 0x01},
+		GlobalState: basics.TealKeyValue{
+			"counter": basics.TealValue{Type: basics.TealUintType, Uint: 7},
+			"owner":   basics.TealValue{Type: basics.TealBytesType, Bytes: string(owner)},
+		}}
+	p.GlobalStateSchema = basics.StateSchema{NumUint: 1, NumByteSlice: nbs}
+	p.ApprovalProgram = make([]byte, programLen)
+	for i := range p.ApprovalProgram {
+		p.ApprovalProgram[i] = byte(0x81 + i%7)
+	}
+	var rd trackerdb.ResourcesData
+	rd.SetAppParams(p, false)
+	rd.UpdateRound = ur
+	return rd
+}
+
+func verifC15AppStateExec(t *testing.T, op string) string {
+	f := strings.Fields(op)
+	if len(f) != 5 {
+		return "bad-op"
+	}
+	programLen, owner, nbs, ur := int(vh.U(f[1])), verifC15LUnhex(f[2]), vh.U(f[3]), vh.U(f[4])
+	verifC15LSeq++
+	rd := verifC15AppResource(programLen, owner, nbs, ur)
+	encRd := protocol.Encode(&rd)
+
+	log := logging.TestingLog(t)
+	log.SetLevel(logging.Warn)
+	genesisInitState, _ := ledgertesting.GenerateInitState(t, protocol.ConsensusCurrentVersion, 100)
+	dbName := filepath.Join(t.TempDir(), fmt.Sprintf("verifC15AppState.%d.%d", verifC15LSeq, crypto.RandUint64()))
+	l, err := OpenLedger(log, dbName, true, genesisInitState, config.GetDefaultLocal())
+	require.NoError(t, err)
+	defer l.Close()
+	ctx := context.Background()
+	accessor := MakeCatchpointCatchupAccessor(l, log)
+	require.NoError(t, accessor.ResetStagingBalances(ctx, true))
+
+	var creator basics.Address
+	for i := range creator {
+		creator[i] = 0x42
+	}
+	acct := trackerdb.BaseAccountData{MicroAlgos: basics.MicroAlgos{Raw: 5_000_000}, TotalAppParams: 1,
+		TotalAppSchemaNumUint: 1, TotalAppSchemaNumByteSlice: 1, UpdateRound: 990}
+	var totals ledgercore.AccountTotals
+	totals.Offline.Money = acct.MicroAlgos
+	blk := bookkeeping.Block{BlockHeader: bookkeeping.BlockHeader{Round: verifC15AppRound}}
+	blk.CurrentProtocol = protocol.ConsensusCurrentVersion
+	header := CatchpointFileHeader{
+		Version:           CatchpointFileVersionV8,
+		BalancesRound:     verifC15AppRound - basics.Round(config.Consensus[protocol.ConsensusCurrentVersion].CatchpointLookback),
+		BlocksRound:       verifC15AppRound,
+		Totals:            totals,
+		TotalAccounts:     1,
+		TotalChunks:       1,
+		BlockHeaderDigest: blk.Digest(),
+	}
+	var progress CatchpointCatchupAccessorProgress
+	require.NoError(t, accessor.ProcessStagingBalances(ctx, CatchpointContentFileName, protocol.Encode(&header), &progress))
+	var chunk CatchpointSnapshotChunkV6
+	chunk.Balances = []encoded.BalanceRecordV6{{Address: creator, AccountData: protocol.Encode(&acct),
+		Resources: map[uint64]msgp.Raw{uint64(verifC15AppIdx): encRd}}}
+	name := fmt.Sprintf("%s%d%s", catchpointBalancesFileNamePrefix, 1, catchpointBalancesFileNameSuffix)
+	require.NoError(t, accessor.ProcessStagingBalances(ctx, name, protocol.Encode(&chunk), &progress))
+	require.NoError(t, accessor.BuildMerkleTrie(ctx, nil))
+	balancesHash, spver, oa, orp, restoredTotals, err := accessor.GetVerifyData(ctx)
+	require.NoError(t, err)
+	blockDigest := blk.Digest()
+	label := ledgercore.MakeLabel(ledgercore.MakeCatchpointLabelMakerCurrent(verifC15AppRound, &blockDigest, &balancesHash,
+		restoredTotals, &spver, &oa, &orp))
+
+	// what the node would adopt: read the application back from the staged (then applied) balances
+	restoredOwner := "unread"
+	if err := accessor.(*catchpointCatchupAccessorImpl).finishBalances(ctx); err == nil {
+		if res, err := l.LookupApplication(l.Latest(), creator, basics.AppIndex(verifC15AppIdx)); err == nil && res.AppParams != nil {
+			restoredOwner = verifC15LHex([]byte(res.AppParams.GlobalState["owner"].Bytes))
+		}
+	}
+	return fmt.Sprintf("size=%d root=%s label=%s owner=%s", len(encRd), verifC15LHex(balancesHash[:]), label, restoredOwner)
+}
+
+// verifC15AppStateGenerate: pairs (and triples) of one-application states that differ only near the END of the
+// application row's encoding, at encoded sizes around 1 KB, 2 KB, 4 KB and a few seeded ones.
+func verifC15AppStateGenerate() []string {
+	r := vh.NewRng(vh.Seed() + 1500)
+	owner := r.Bytes(32)
+	base := verifC15AppResource(1, owner, 1, 990)
+	baseLen := len(protocol.Encode(&base)) - 1
+	targets := []int{984, 985, 1000, 1024, 1025, 1064, 2048, 4096, 900 + r.Intn(200), 4000 + r.Intn(200)}
+	if vh.Thorough() {
+		targets = append(targets, 300, 512, 4200, 8192)
+	}
+	if vh.Thorough() {
+		for n := 960; n <= 1070; n += 3 {
+			targets = append(targets, n)
+		}
+		for i := 0; i < 20; i++ {
+			targets = append(targets, 200+r.Intn(4200))
+		}
+	}
+	var ops []string
+	for _, size := range targets {
+		plen := size - baseLen
+		for d := -4; d <= 0; d++ { // msgpack length headers of the program grow at 256 / 65536
+			if rd := verifC15AppResource(plen+d, owner, 1, 990); plen+d >= 1 && len(protocol.Encode(&rd)) == size {
+				plen += d
+				break
+			}
+		}
+		if plen < 1 {
+			continue
+		}
+		o2 := append([]byte{}, owner...)
+		o2[31] ^= 1
+		o3 := append(append([]byte{}, owner[:16]...), make([]byte, 16)...)
+		for j := 16; j < 32; j++ {
+			o3[j] = 0xee
+		}
+		ops = append(ops, fmt.Sprintf("appstate %d %s 1 990", plen, verifC15LHex(owner)))
+		ops = append(ops, fmt.Sprintf("appstate %d %s 1 990", plen, verifC15LHex(o2))) // last byte of the last global value
+		if vh.Thorough() {
+			ops = append(ops, fmt.Sprintf("appstate %d %s 1 990", plen, verifC15LHex(o3)))
+		} // second half of it
+		ops = append(ops, fmt.Sprintf("appstate %d %s 2 990", plen, verifC15LHex(owner)))                     // a schema count
+		ops = append(ops, fmt.Sprintf("appstate %d %s 1 %d", plen, verifC15LHex(owner), uint64(990)+(1<<32))) // update round, same affinity bytes
+	}
+	return ops
+}
+
 func verifC15LedgerGenerate() []string {
 	line := func(n, v string) string {
 		return fmt.Sprintf("ledger %s %s", verifC15LHex([]byte(n)), verifC15LHex([]byte(v)))
@@ -149,7 +292,7 @@ func verifC15LedgerGenerate() []string {
 			ops = append(ops, line(string(n), string(v2))) // control
 		}
 	}
-	return ops
+	return append(ops, verifC15AppStateGenerate()...)
 }
 
 func TestVerifC15Ledger(t *testing.T) {
@@ -166,7 +309,13 @@ func TestVerifC15Ledger(t *testing.T) {
 	for i, op := range ops {
 		res := "FAILED"
 		// distinct sub-test names without '#': the helpers derive (in-memory) database names from t.Name()
-		ok := t.Run(fmt.Sprintf("op%dx", i), func(t *testing.T) { res = verifC15LedgerExec(t, op) })
+		ok := t.Run(fmt.Sprintf("op%dx", i), func(t *testing.T) {
+			if strings.HasPrefix(op, "appstate ") {
+				res = verifC15AppStateExec(t, op)
+			} else {
+				res = verifC15LedgerExec(t, op)
+			}
+		})
 		if !ok && res == "FAILED" {
 			res = "FAILED (see test log)"
 		}
